@@ -293,7 +293,7 @@ class Repo:
             for c in caller.own_nodes():
                 if isinstance(c, ast.Call):
                     for t in self.resolve_call(c, caller, caller.module):
-                        if t.kind == "def" and t.ref.is_func and t.ref.name.startswith("_") and not t.ref.name.startswith("__"):
+                        if t.kind == "def" and t.ref.is_func and (t.ref.name.startswith("_") or not q.rsplit(".", 1)[-1].startswith("_")) and not t.ref.name.startswith("__"):
                             src = ast.dump(t.ref.node)
                             if all(m in src for m in mentions_all) and t.ref not in cands and t.ref.qual not in RELOCATABLE_SET():
                                 cands.append(t.ref)
